@@ -57,6 +57,10 @@ func K8(rc *RC, floor int) {
 				tree := c.Stmts(fi.Decl, arm.Clause.Body)
 				msg, detail := checkMaskArm(name, tree)
 				if msg != "" {
+					if strings.Contains(msg, "structural: ") {
+						rc.S.Undec("K8", key, pos, "the arm no longer has the shape soft: one store per element / hard: one or-ed store per element ("+msg+"); its predicate is not compared")
+						continue
+					}
 					o := rc.S.Viol("K8", key, pos, msg)
 					o.Sig = msg
 				} else {
@@ -92,17 +96,26 @@ func checkMaskArm(name string, tree []*ir.Node) (problem, detail string) {
 		data = "$r.<T>s()"
 	}
 	if ifn == nil {
-		return "no branch on maskIsSoft in this arm", ""
+		return "structural: no branch on maskIsSoft in this arm", ""
 	}
 	a := data + "[@r]"
 	want, _ := maskPredicate(name, a, "$0.(τ)", "$1.(τ)")
 	one := func(ns []*ir.Node, hard bool) string {
 		if len(ns) != 1 || ns[0].Kind != "range" || ns[0].Head != "range "+data+" as @r" {
-			return "branch is not a single loop over the data"
+			return "structural: branch is not a single loop over the data"
 		}
 		body := ns[0].Kids
+		// `if !mask[i] { mask[i] = P }` is `mask[i] = mask[i] || P`
+		if hard && len(body) == 1 && body[0].Kind == "if" && len(body[0].Else) == 0 && len(body[0].Kids) == 1 && body[0].Kids[0].Kind == "store" &&
+			(body[0].Head == "!"+mask+"[@r]") && body[0].Kids[0].Target == mask+"[@r]" {
+			v := body[0].Kids[0].Value
+			if v != want && ambig(v) != ambig(want) {
+				return fmt.Sprintf("stores %s under !%s[@r], want %s", v, mask, want)
+			}
+			return ""
+		}
 		if len(body) != 1 || body[0].Kind != "store" {
-			return "loop body is not a single store"
+			return "structural: loop body is not a single store"
 		}
 		st := body[0]
 		if st.Target != mask+"[@r]" {
